@@ -34,6 +34,9 @@ COMPONENTS["real"] = C09.COMPONENTS["real"] + [
 ASSUMPTIONS = [
     "the generic comparison is InterInventoryTree.iter_changes instantiated directly (breezy.tree.InterTree.iter_changes is abstract; this is the code InterDirStateTree and InterCHKRevisionTree fall back to); for git trees no second implementation exists, so only the consistency oracles are evaluated there (a filtered result is the part of the unfiltered one that the filter covers; per-path records applied to the source give the target)",
     "representation that is normalised away: order; executable None vs False where the entry does not exist; only the topmost unversioned entry is compared and, with a filter, only unversioned entries literally inside the filter; with a filter and include_unchanged, unchanged entries outside the filter (parents that were merely evaluated) are ignored",
+    "a filter path that lies inside another filter path is redundant: the result for the filter and for its minimal form must be equal as sets (redundant_filter_differs), and an entry that did not move and does not lie where a renamed/removed directory used to be must not be reported twice below a redundant root (overlapping_roots_duplicates; kept apart from the recorded duplicate shapes of bzr_filter_duplicates, which all involve a moved entry or the old path of a renamed directory, and whose multiplicity varies from call to call)",
+    "revision-tree pairs: consecutive revisions in both directions first, then random pairs; besides the plan's filters, up to two filters derived from the model snapshots that name an entry which stays under its parent (edited / renamed in place) while an ancestor moved",
+    "determinism pin (treesim.install_order_pin): results of dirstate iter_changes calls with two or more search roots are handed on sorted by path, because the Rust code walks the roots in per-thread hash order (this order decides the order of texts in the pack a partial commit writes, hence the pack's content-hash name)",
     "valid-delta oracle = every entry hangs off a directory that is in the resulting tree (the property speaks of the parents that are needed); two entries ending on one path (old occupant outside the filter) are counted (probe filtered_name_collision), not judged",
     "differences that are defects already reported (checks/treesim.py GUARDS) are removed from the comparison while the guard is on; lifted as in C09 once known_findings.json has the entry",
     "the working-tree states are the ones the C09 model can reach (see C09 assumptions); trees are read-locked for the whole comparison",
@@ -515,7 +518,7 @@ def targeted_filters(sa, sb, rng):
         return []
     ia = {e[0]: p for p, e in sa.items()}
     ib = {e[0]: p for p, e in sb.items()}
-    out = []
+    out, hot = [], []
     for fid in sorted(set(ia) & set(ib)):
         pa, pb = ia[fid], ib[fid]
         if not pa or not pb:
@@ -525,10 +528,11 @@ def targeted_filters(sa, sb, rng):
             continue  # reparented (or odd): the ordinary expansion handles it
         if T.parent(pa) == T.parent(pb):
             continue  # no ancestor moved
-        out.append([pb])
-        out.append([pa])
+        edited = sa[pa][1:] != sb[pb][1:] or T.posixpath.basename(pa) != T.posixpath.basename(pb)
+        (hot if edited else out).append([pb] if rng.random() < 0.6 else [pa])
+    rng.shuffle(hot)
     rng.shuffle(out)
-    return out[:2]
+    return (hot + out)[:2]
 
 
 def execute(sim, plan):
